@@ -124,7 +124,7 @@ class Scenario:
 _ALSO_ALLOWED: list = []  # engine kinds an enclosing preferred-engine call may legitimately place the operation in
 
 
-def _restriction_error(expr, kind):
+def _restriction_error(expr, kind, eng=None):
     r = A.engine_restriction(expr)
     if r is None:
         return False
@@ -172,10 +172,11 @@ def ref_apply(
             _ALSO_ALLOWED.pop()
     if k == "calc":
         _, t, e = op
+        e = A.bind_engine(e, val.eng)
         errs = set()
         if not A.free_cols(e) <= cols or t in cols:
             errs.add("ColumnError")
-        if _restriction_error(e, kind):
+        if _restriction_error(e, kind, val.eng):
             errs.add("EngineError")
         if errs:
             raise RefReject(errs, f"calc {t}")
@@ -196,13 +197,13 @@ def ref_apply(
         base = None if val.base is None else tuple({c: r[c] for c in p} for r in val.base)
         return rep(val, rows=tuple({c: r[c] for c in p} for r in rows), cols=p, base=base)
     if k == "sel":
-        p = op[1]
+        p = A.bind_engine(op[1], val.eng)
         if A.trivial_value(p) is True:
             return val
         errs = set()
         if not A.free_cols(p) <= cols:
             errs.add("ColumnError")
-        if _restriction_error(p, kind):
+        if _restriction_error(p, kind, val.eng):
             errs.add("EngineError")
         if errs:
             raise RefReject(errs, "sel")
@@ -218,14 +219,14 @@ def ref_apply(
         base = None if val.base is None else tuple(first_occurrence_dedup(val.base))
         return rep(val, rows=tuple(first_occurrence_dedup(rows)), det=det, cdet=val.cdet and not val.amb, base=base)
     if k == "sort":
-        terms = op[1]
+        terms = tuple((A.bind_engine(e, val.eng), asc) for e, asc in op[1])
         if not terms:
             return val
         errs = set()
         need = frozenset().union(*[A.free_cols(e) for e, _ in terms])
         if not need <= cols:
             errs.add("ColumnError")
-        if any(_restriction_error(e, kind) for e, _ in terms):
+        if any(_restriction_error(e, kind, val.eng) for e, _ in terms):
             errs.add("EngineError")
         if errs:
             raise RefReject(errs, "sort")
@@ -293,7 +294,7 @@ def ref_apply(
         if pred is not None and A.trivial_value(pred) is not True:
             if not A.free_cols(pred) <= (lhs.cols | rhs.cols):
                 errs.add("ColumnError")
-            if _restriction_error(pred, kind):
+            if _restriction_error(pred, kind, val.eng):
                 errs.add("EngineError")
         if sql and (val.psort or other.psort):
             errs.add("RelationalAlgebraError")
